@@ -82,6 +82,7 @@ type Violation struct {
 	Kind    string            `json:"kind"` // assert | panic | hang | deadlock
 	Pretty  map[string]string `json:"pretty,omitempty"`
 	Tags    []string          `json:"tags,omitempty"`
+	Trace   []Decision        `json:"decision_trace,omitempty"` // branch / value / scheduling decisions of the path
 }
 
 type RunConfig struct {
@@ -107,6 +108,7 @@ type RunConfig struct {
 	OnlyFinding   string          // explore only inputs matching this known finding
 	CollectNotes  bool
 	KnownSigs     []KnownSig
+	InitialPrefix []Decision // re-execute exactly this path first (schedule replay)
 }
 
 type Stats struct {
@@ -137,6 +139,7 @@ type Stats struct {
 	Notes         []string
 	KnownHits     map[string][]*Violation
 	KnownCount    int
+	KnownIDs      map[string]bool // open rt.KnownFinding ids this harness mentions
 }
 
 // KnownSig identifies a known finding by the call site and message of the failure.
@@ -542,6 +545,7 @@ func (i *Interp) recordViolation(msg, where string) {
 		return
 	}
 	v := &Violation{Msg: msg, Where: where, Kind: "assert"}
+	v.Trace = append([]Decision(nil), p.trace...)
 	m, ok := i.model()
 	if !ok {
 		v.Msg += " (model extraction failed)"
@@ -627,6 +631,7 @@ func (i *Interp) runPath(harness *ssa.Function, item workItem) {
 	i.steps = 0
 	i.stubs = nil
 	i.symSched = false
+	i.preemptBudget = 0
 	i.switches = 0
 	i.pendingAbort = nil
 	i.mutexes = map[*value]*mstate{}
@@ -824,7 +829,7 @@ func Explore(ld *Loaded, harness *ssa.Function, cfg *RunConfig) *Stats {
 	st := newStats()
 	e := &explorer{stats: st, cfg: cfg}
 	e.cond = sync.NewCond(&e.mu)
-	e.work = []workItem{{}}
+	e.work = []workItem{{prefix: cfg.InitialPrefix}}
 	var wg sync.WaitGroup
 	nw := cfg.Workers
 	if nw < 1 {
